@@ -43,7 +43,10 @@ Step ==
        [] e.ev = "Write"      -> AbsWrite(e.pid, e.single, ToSet(e.hist), Out(e), e.done) /\ UNCHANGED run
        [] e.ev = "Match"      -> AbsMatchR(e.r, e.kind, e.rtl, ToSet(e.hist), Out(e), e.done) /\ UNCHANGED run
        [] e.ev = "Lose"       -> AbsLose(e.r, ToSet(e.hist), Out(e), e.done) /\ UNCHANGED run
-       [] e.ev = "AckNack"    -> AbsAckNack(e.r, e.base, ToSet(e.set), ToSet(e.hist), Out(e), e.done) /\ UNCHANGED run
+       \* an ACKNACK behind an INFO_DST that names another participant is not addressed to this writer: nothing happened
+       [] e.ev = "AckNack"    -> /\ IF e.dst = "other" THEN AbsOutputs(ToSet(e.hist), Out(e), e.done)
+                                                          ELSE AbsAckNack(e.r, e.base, ToSet(e.set), ToSet(e.hist), Out(e), e.done)
+                                 /\ UNCHANGED run
        [] e.ev \in {"HBTick", "Repair", "RepairFrags"} -> AbsOutputs(ToSet(e.hist), Out(e), e.done) /\ UNCHANGED run
        [] e.ev = "RepairDone" -> AbsRepairDone(e.r, e.quiescent) /\ UNCHANGED run
        [] e.ev = "Clean"      -> AbsClean(ToSet(e.hist), e.done) /\ UNCHANGED run
